@@ -21,8 +21,11 @@ func Index(json any) any {
 	classIndex := make(map[string][]string)
 	nodeIndex := make(types.ObjectMap)
 
-	g := json.(types.ObjectMap)["@graph"]
-	nodes := g.([]any)
+	// a JSON-LD document without nodes flattens to an empty array, not to a map with a @graph
+	var nodes []any
+	if doc, isMap := json.(types.ObjectMap); isMap {
+		nodes, _ = doc["@graph"].([]any)
+	}
 
 	for _, nn := range nodes {
 		n := nn.(types.ObjectMap)
